@@ -1,8 +1,7 @@
 /-
-The relaxed disk invariant with explicit witnesses (`XInvX`), the disk-only invariant `DiskX`
-(what a reader needs), and what writing one entry / the GC touches does: new invariant, crash
-states at any byte (`RTape` of a prefix cut) and at effect boundaries (`DiskX` again: the frames
-of the unfinished entry are a dead group).
+The relaxed disk invariant with explicit witnesses (`XInvX`) and the disk-only invariant `DiskX`
+(what a reader needs), over tapes of ITEMS: frames as written and junk slots left by cut writes;
+plus, possibly, a residue of at most 6 junk bytes where the writer stands, in the very last block.
 -/
 import MRL.Proofs.LGroups
 import MRL.Proofs.LLayout
@@ -12,40 +11,61 @@ import MRL.Proofs.HPhase
 namespace MRL.L
 open MRL Codec Consts G H Torn Log Buf
 
-/-- disk-only invariant: files `F…` full-size (the next one possibly empty), holding the layout of
-    tagged frames `afs` and zeros; the frames are lead frames and groups, the live ones being the
-    retained entries of `J`; a writer resuming after the frames stands in the last full-size file -/
+/-- the written bytes `P` are the bytes of the items `ais`, possibly followed by the padding up to
+    the next block; `L` is the length of the tape -/
+structure FLayJ (g : Geom) (F L : Nat) (P : Bytes) (ais : List AItm) : Prop where
+  bytes : P = flatJ g 0 ais ++ zeros (P.length - endPos g 0 (frs ais))
+  fits : Fits g 0 (frs ais)
+  tagged : Tagged g F 0 (tfs ais)
+  len : P.length = endPos g 0 (frs ais) ∨ P.length = hdrPos g (endPos g 0 (frs ais))
+  jok : JOK g L 0 ais
+
+/-- a residue `res` at position `W` (the items end at `E`) of a tape of length `L`: none, or at most
+    6 bytes, not all zero, at a header position of the last block -/
+def ResOK (g : Geom) (L W E : Nat) (res : Bytes) : Prop :=
+  res = [] ∨ (res.length ≤ 6 ∧ isAllZero res = false ∧ W = hdrPos g E ∧ L ≤ (W / g.B + 1) * g.B)
+
+/-- disk-only invariant: files `F…` full-size (the next one possibly empty), holding the bytes of
+    the items `ais`, zeros, a residue, zeros; the items are lead frames and groups, the live ones
+    being the retained entries of `J`; a writer resuming after the items stands in the last file -/
 def DiskX (g : Geom) (X : Image) (F : Nat) (J : List JE) : Prop :=
-  ∃ (cs : List Bytes) (x : Bool) (afs : List TFrm), cs ≠ [] ∧ (∀ c ∈ cs, c.length = g.fileBytes) ∧
-    (∃ z, cs.flatten = (layoutBufs g 0 (untag afs)).flatten ++ zeros z) ∧
+  ∃ (cs : List Bytes) (x : Bool) (ais : List AItm) (res : Bytes) (z0 : Nat),
+    cs ≠ [] ∧ (∀ c ∈ cs, c.length = g.fileBytes) ∧
+    (∃ z1, cs.flatten = flatJ g 0 ais ++ zeros z0 ++ res ++ zeros z1) ∧
     X = imgOf F cs ++ xtra x (F + cs.length) ∧
-    (cs.length - 1) * g.fileBytes ≤ hdrPos g (endPos g 0 (untag afs)) ∧
-    Fits g 0 (untag afs) ∧ Tagged g F 0 afs ∧ SegsX F J afs
+    (cs.length - 1) * g.fileBytes ≤ hdrPos g (endPos g 0 (frs ais)) ∧
+    Fits g 0 (frs ais) ∧ Tagged g F 0 (tfs ais) ∧ JOK g (cs.length * g.fileBytes) 0 ais ∧
+    ResOK g (cs.length * g.fileBytes) (endPos g 0 (frs ais) + z0) (endPos g 0 (frs ais)) res ∧
+    SegsX F J ais
 
 structure XInvX (g : Geom) (l : Log) (D : Image) (F : Nat) (J : List JE) (init : List Bytes) (t : Bytes)
-    (x : Bool) (afs lead : List TFrm) (gs : List Grp) : Prop where
-  tape : TapeX g l D F init t x
-  lay : FLay g F (init.flatten ++ t) afs
-  hafs : afs = lead ++ gs.flatMap (·.2)
-  hlead : ∀ a ∈ lead, a.2.1.isFirst = false
+    (x : Bool) (res : Bytes) (ais lead : List AItm) (gs : List Grp) : Prop where
+  tape : TapeR g l D F init t x res
+  lay : FLayJ g F ((init.length + 1) * g.fileBytes) (init.flatten ++ t) ais
+  resok : ResOK g ((init.length + 1) * g.fileBytes) (init.flatten ++ t).length (endPos g 0 (frs ais)) res
+  hais : ais = lead ++ gs.flatMap (·.2)
+  hlead : ∀ a ∈ lead, a.2 = none ∧ a.1.2.1.isFirst = false
   hmap : (liveOf gs).map (·.1) = J.filter (fun j => decide (F ≤ j.loc))
   hok : ∀ y ∈ gs, GrpOK y
 
 theorem XInvX.congr {g : Geom} {l l' : Log} {D : Image} {F : Nat} {J : List JE} {init : List Bytes}
-    {t : Bytes} {x : Bool} {afs lead : List TFrm} {gs : List Grp} (h : XInvX g l D F J init t x afs lead gs)
+    {t : Bytes} {x : Bool} {res : Bytes} {ais lead : List AItm} {gs : List Grp}
+    (h : XInvX g l D F J init t x res ais lead gs)
     (hf : l'.files = l.files) (hc : l'.cur = l.cur) (ho : l'.off = l.off) :
-    XInvX g l' D F J init t x afs lead gs :=
-  ⟨h.tape.congr hf hc ho, h.lay, h.hafs, h.hlead, h.hmap, h.hok⟩
+    XInvX g l' D F J init t x res ais lead gs :=
+  ⟨h.tape.congr hf hc ho, h.lay, h.resok, h.hais, h.hlead, h.hmap, h.hok⟩
 
 theorem XInvX.segs {g : Geom} {l : Log} {D : Image} {F : Nat} {J : List JE} {init : List Bytes}
-    {t : Bytes} {x : Bool} {afs lead : List TFrm} {gs : List Grp} (h : XInvX g l D F J init t x afs lead gs) :
-    SegsX F J afs := ⟨lead, gs, h.hafs, h.hlead, h.hmap, h.hok⟩
+    {t : Bytes} {x : Bool} {res : Bytes} {ais lead : List AItm} {gs : List Grp}
+    (h : XInvX g l D F J init t x res ais lead gs) :
+    SegsX F J ais := ⟨lead, gs, h.hais, h.hlead, h.hmap, h.hok⟩
 
-theorem nextLoc_tagX (g : Geom) {l : Log} {D : Image} {F : Nat} {init : List Bytes} {t : Bytes} {x : Bool}
-    (h : TapeX g l D F init t x) :
+theorem nextLoc_tagR (g : Geom) {l : Log} {D : Image} {F : Nat} {init : List Bytes} {t : Bytes} {x : Bool}
+    {res : Bytes} (h : TapeR g l D F init t x res) :
     l.nextLoc g = F + hdrPos g (init.length * g.fileBytes + l.off) / g.fileBytes := by
+  have hz := h.zero
   cases x with
-  | false => exact nextLoc_tag g h.to_tape
+  | false => exact nextLoc_tag g hz.to_tape
   | true =>
     have hfiles : l.files = List.range' F (init.length + 1 + 1) := by simpa using h.files
     have h1 : l.rollTarget = l.cur + 1 := by
@@ -57,305 +77,69 @@ theorem nextLoc_tagX (g : Geom) {l : Log} {D : Image} {F : Nat} {init : List Byt
     have h3 : l.nextLoc g = (shl l F init.length).nextLoc g := by
       rw [nextLoc_eq, nextLoc_eq, h1, h2]; rfl
     rw [h3]
-    exact nextLoc_tag g h.sh
+    exact nextLoc_tag g hz.sh
 
 theorem tagFrom_length (g : Geom) (F : Nat) (fs : List Frm) (p : Nat) : (tagFrom g F p fs).length = fs.length := by
   have := congrArg List.length (untag_tagFrom g F fs p)
   unfold untag at this
   rwa [List.length_map] at this
 
-/-- a crash state holding whole frames is a `DiskX` -/
-theorem diskX_of_prefix (g : Geom) (F : Nat) (afsA rest : List TFrm)
-    (hfit : Fits g 0 (untag (afsA ++ rest))) (htag : Tagged g F 0 (afsA ++ rest)) (Pm : Bytes) (X : Image)
-    (hrt : RTape g F Pm X)
-    (hPm : Pm = (layoutBufs g 0 (untag (afsA ++ rest))).flatten.take Pm.length)
-    (h1 : endPos g 0 (untag afsA) ≤ Pm.length) (h2 : Pm.length ≤ hdrPos g (endPos g 0 (untag afsA)))
-    (h3 : Pm.length ≤ endPos g 0 (untag (afsA ++ rest))) (J : List JE) (hS : SegsX F J afsA) :
-    DiskX g X F J := by
-  obtain ⟨cs, x, hne, hfull, ⟨z, hflat⟩, hX, hlast⟩ := hrt
-  rw [untag_append] at hfit hPm h3
-  have hfA : Fits g 0 (untag afsA) := by rw [Fits_append] at hfit; exact hfit.1
-  have htA : Tagged g F 0 afsA := by rw [Tagged_append] at htag; exact htag.1
-  refine ⟨cs, x, afsA, hne, hfull, ⟨Pm.length - endPos g 0 (untag afsA) + z, ?_⟩, hX,
-    Nat.le_trans hlast h2, hfA, htA, hS⟩
-  have e := layout_take_pad g _ _ hfit _ h1 h2 h3
-  rw [← hPm] at e
-  rw [hflat]
-  conv => lhs; rw [e]
-  rw [List.append_assoc, ← zeros_add]
-
-/-- writing one entry, with explicit witnesses and crash states -/
-theorem entry_extX (g : Geom) {l : Log} {D : Image} {F : Nat} {init : List Bytes} {t : Bytes} {x : Bool}
-    {J : List JE} {afs lead : List TFrm} {gs : List Grp}
-    (h : XInvX g l D F J init t x afs lead gs) (e : Entry) :
-    ∃ init' t' x' ntf B,
-      XInvX g (Log.writeEntry g l e).1 (applyOsOps D (directOps (Log.writeEntry g l e).2.1)) F
-        (J ++ [l.je g e]) init' t' x' (afs ++ ntf) lead (gs ++ [(some (l.je g e), ntf)]) ∧
-      ntf ≠ [] ∧ (init'.flatten ++ t').length = endPos g 0 (untag (afs ++ ntf)) ∧
-      init'.flatten ++ t' = init.flatten ++ t ++ B ∧
-      (∀ (w : Bool) X, CutW w D (Log.writeEntry g l e).2.1 X →
-        ∃ Pm, RTape g F Pm X ∧ PrefixCut (init.flatten ++ t) (init'.flatten ++ t') Pm ∧
-          (w = true → DiskX g X F J ∨ DiskX g X F (J ++ [l.je g e]))) ∧
-      (∀ a ∈ ntf, ∃ f off, Effect.write f off (encodeFrame a.2.1 a.2.2) ∈ (Log.writeEntry g l e).2.1) := by
-  obtain ⟨hT, hL, hafs, hlead, hmap, hok⟩ := h
-  have hB := G.Bpos g
-  have hc : l.off % g.B < g.B := Nat.mod_lt _ (by omega)
-  obtain ⟨fs, hbufs, hef, hpay, hfit⟩ := writeEntryBufs_layout g (l.off % g.B) true e.encode hc
-  have hne : fs ≠ [] := hef.ne_nil
-  have hPl := hT.P_length
-  have hmod : (init.flatten ++ t).length % g.B = l.off % g.B := by rw [hPl, tape_mod]
-  have hwe : Log.writeEntry g l e =
-      ((writeBufs g l (layoutBufs g (l.off % g.B) fs)).1, (writeBufs g l (layoutBufs g (l.off % g.B) fs)).2,
-        totalLen (layoutBufs g (l.off % g.B) fs)) := by
-    rw [Step.writeEntry_eq]
-    unfold Step.entryBufs MRL.writeEntry
-    rw [hbufs]
-  rw [hwe]
-  have hnc := noCross_layoutBufs g _ fs hc hfit
-  obtain ⟨init', t', x', hT', hP', _⟩ := writeBufs_tapeX g (layoutBufs g (l.off % g.B) fs) hT hnc
-  have hfit' : Fits g ((init.flatten ++ t).length % g.B) fs := by rw [hmod]; exact hfit
-  obtain ⟨hL', hlen'⟩ := flay_append g F _ afs hL fs hne hfit'
-  have hLfull := hL'
-  rw [hmod] at hL' hlen'
-  rw [← hP'] at hL' hlen'
-  have hlocF : F ≤ (l.je g e).loc := by
-    have := nextLoc_ge g l
-    have := hT.cur
-    simp only [je]; omega
-  have hnonempty : tagFrom g F (endPos g 0 (untag afs)) fs ≠ [] := by
-    cases fs with
-    | nil => exact absurd rfl hne
-    | cons fr fs => simp [tagFrom]
-  have hsegnew : SegOK (l.je g e, tagFrom g F (endPos g 0 (untag afs)) fs) := by
-    refine ⟨by simpa [untag_tagFrom] using hef, by simpa [untag_tagFrom, je] using hpay, ?_⟩
-    intro a ha
-    cases fs with
-    | nil => exact absurd rfl hne
-    | cons fr fs' =>
-      simp only [tagFrom, List.head?_cons, Option.some.injEq] at ha
-      subst ha
-      simp only [je]
-      rw [nextLoc_tagX g hT, ← hPl]
-      congr 2
-      rcases hL.len with h1 | h1
-      · rw [h1]
-      · rw [h1, hdrPos_idem]
-  have hE0 : endPos g 0 (untag afs) ≤ (init.flatten ++ t).length := by
-    rcases hL.len with h1 | h1
-    · omega
-    · have := le_hdrPos g (endPos g 0 (untag afs)); omega
-  have hE0' : (init.flatten ++ t).length ≤ hdrPos g (endPos g 0 (untag afs)) := by
-    rcases hL.len with h1 | h1
-    · have := le_hdrPos g (endPos g 0 (untag afs)); omega
-    · omega
-  -- the final bytes are exactly the layout
-  have hPf : init'.flatten ++ t' = (layoutBufs g 0 (untag (afs ++ tagFrom g F (endPos g 0 (untag afs)) fs))).flatten := by
-    have := hL'.bytes
-    rw [untag_append, untag_tagFrom, hlen', Nat.sub_self] at this
-    rw [untag_append, untag_tagFrom]
-    simpa [zeros] using this
-  refine ⟨init', t', x', tagFrom g F (endPos g 0 (untag afs)) fs, (layoutBufs g (l.off % g.B) fs).flatten,
-    ⟨hT', hL', ?_, hlead, ?_, ?_⟩, hnonempty, by rw [hlen', untag_append, untag_tagFrom], hP', ?_, ?_⟩
-  · rw [hafs, List.flatMap_append]; simp [List.append_assoc]
-  · rw [liveOf_append, List.map_append, hmap, List.filter_append]
-    simp [liveOf, hlocF]
-  · intro s hs
-    rcases List.mem_append.mp hs with hs | hs
-    · exact hok s hs
-    · simp only [List.mem_singleton] at hs
-      subst hs
-      exact hsegnew
-  · intro w X hX
-    obtain ⟨Pm, h1, h2, h3⟩ := writeBufs_cutW g _ hT hnc hX
-    refine ⟨Pm, h1, by rw [hP']; exact h2, ?_⟩
-    intro hw
-    obtain ⟨j, hj, hPm⟩ := h3 hw
-    -- the position after `j` buffers
-    have hbp := bufs_prefix g fs (init.flatten ++ t).length j hfit' (by rw [hmod]; exact hj)
-    rw [hmod] at hbp
-    obtain ⟨i, hi, b1, b2⟩ := hbp
-    have hPmlen : Pm.length = (init.flatten ++ t).length + totalLen ((layoutBufs g (l.off % g.B) fs).take j) := by
-      rw [hPm, List.length_append, totalLen_eq]
-    obtain ⟨m0, _, hm0, hPm0⟩ := h2
-    have hPmtake : Pm = (init'.flatten ++ t').take Pm.length := by
-      rw [hP']
-      conv => lhs; rw [hPm0]
-      rw [hPm0, List.length_take, Nat.min_eq_left hm0]
-    have hm3 : Pm.length ≤ (init'.flatten ++ t').length := by
-      rw [hP', hPm0, List.length_take]; exact Nat.min_le_right _ _
-    -- the frames written entirely
-    have hsplit : tagFrom g F (endPos g 0 (untag afs)) fs =
-        (tagFrom g F (endPos g 0 (untag afs)) fs).take i ++ (tagFrom g F (endPos g 0 (untag afs)) fs).drop i :=
-      (List.take_append_drop i _).symm
-    have hunt : untag ((tagFrom g F (endPos g 0 (untag afs)) fs).take i) = fs.take i := by
-      have := untag_tagFrom g F fs (endPos g 0 (untag afs))
-      unfold untag at this ⊢
-      rw [List.map_take, this]
-    have huntd : untag ((tagFrom g F (endPos g 0 (untag afs)) fs).drop i) = fs.drop i := by
-      have := untag_tagFrom g F fs (endPos g 0 (untag afs))
-      unfold untag at this ⊢
-      rw [List.map_drop, this]
-    have hEi : endPos g 0 (untag (afs ++ (tagFrom g F (endPos g 0 (untag afs)) fs).take i)) ≤ Pm.length ∧
-        Pm.length ≤ hdrPos g (endPos g 0 (untag (afs ++ (tagFrom g F (endPos g 0 (untag afs)) fs).take i))) := by
-      rw [untag_append, hunt, endPos_append, hPmlen]
-      by_cases hi0 : fs.take i = []
-      · rw [hi0] at b1 b2 ⊢
-        simp only [endPos] at b1 b2 ⊢
-        refine ⟨by omega, ?_⟩
-        rcases hL.len with h1 | h1
-        · rw [← h1]; exact b2
-        · have hh : hdrPos g (init.flatten ++ t).length = hdrPos g (endPos g 0 (untag afs)) := by
-            rw [h1, hdrPos_idem]
-          rw [hh] at b2; exact b2
-      · have he : endPos g (init.flatten ++ t).length (fs.take i) = endPos g (endPos g 0 (untag afs)) (fs.take i) := by
-          rcases hL.len with h1 | h1
-          · rw [h1]
-          · rw [h1, endPos_hdrPos g _ _ hi0]
-        rw [← he]; exact ⟨b1, b2⟩
-    have hfull2 : Fits g 0 (untag ((afs ++ (tagFrom g F (endPos g 0 (untag afs)) fs).take i) ++
-        (tagFrom g F (endPos g 0 (untag afs)) fs).drop i)) := by
-      rw [List.append_assoc, ← hsplit]; exact hL'.fits
-    have htag2 : Tagged g F 0 ((afs ++ (tagFrom g F (endPos g 0 (untag afs)) fs).take i) ++
-        (tagFrom g F (endPos g 0 (untag afs)) fs).drop i) := by
-      rw [List.append_assoc, ← hsplit]; exact hL'.tagged
-    have hPm2 : Pm = (layoutBufs g 0 (untag ((afs ++ (tagFrom g F (endPos g 0 (untag afs)) fs).take i) ++
-        (tagFrom g F (endPos g 0 (untag afs)) fs).drop i))).flatten.take Pm.length := by
-      rw [List.append_assoc, ← hsplit, ← hPf]; exact hPmtake
-    have hm32 : Pm.length ≤ endPos g 0 (untag ((afs ++ (tagFrom g F (endPos g 0 (untag afs)) fs).take i) ++
-        (tagFrom g F (endPos g 0 (untag afs)) fs).drop i)) := by
-      rw [List.append_assoc, ← hsplit, untag_append, untag_tagFrom, ← hlen']; exact hm3
-    by_cases hall : i = fs.length
-    · -- the whole entry
-      right
-      have htk : (tagFrom g F (endPos g 0 (untag afs)) fs).take i = tagFrom g F (endPos g 0 (untag afs)) fs := by
-        apply List.take_of_length_le
-        rw [tagFrom_length]; omega
-      apply diskX_of_prefix g F _ _ hfull2 htag2 Pm X h1 hPm2 hEi.1 hEi.2 hm32
-      refine ⟨lead, gs ++ [(some (l.je g e), tagFrom g F (endPos g 0 (untag afs)) fs)], ?_, hlead, ?_, ?_⟩
-      · rw [htk, hafs, List.flatMap_append]; simp [List.append_assoc]
-      · rw [liveOf_append, List.map_append, hmap, List.filter_append]
-        simp [liveOf, hlocF]
-      · intro s hs
-        rcases List.mem_append.mp hs with hs | hs
-        · exact hok s hs
-        · simp only [List.mem_singleton] at hs
-          subst hs
-          exact hsegnew
-    · -- an unfinished entry: a dead group
-      left
-      apply diskX_of_prefix g F _ _ hfull2 htag2 Pm X h1 hPm2 hEi.1 hEi.2 hm32
-      refine ⟨lead, gs ++ [(none, (tagFrom g F (endPos g 0 (untag afs)) fs).take i)], ?_, hlead, ?_, ?_⟩
-      · rw [hafs, List.flatMap_append]; simp [List.append_assoc]
-      · rw [liveOf_append, List.map_append, hmap]
-        simp [liveOf]
-      · intro s hs
-        rcases List.mem_append.mp hs with hs | hs
-        · exact hok s hs
-        · simp only [List.mem_singleton] at hs
-          subst hs
-          refine ⟨fs.drop i, ?_, ?_⟩
-          · intro hd
-            have := congrArg List.length hd
-            simp only [List.length_drop, List.length_nil] at this
-            omega
-          · show EntryFrames true (untag ((tagFrom g F (endPos g 0 (untag afs)) fs).take i) ++ fs.drop i)
-            rw [hunt, List.take_append_drop]; exact hef
-  · intro a ha
-    have hmem : a.2 ∈ fs := by
-      have : a.2 ∈ untag (tagFrom g F (endPos g 0 (untag afs)) fs) := List.mem_map_of_mem (f := fun x : TFrm => x.2) ha
-      rwa [untag_tagFrom] at this
-    have hb := mem_layout g a.2.1 a.2.2 fs (l.off % g.B) hmem
-    exact writeBufs_mem g _ l _ hb (Step.encodeFrame_ne_nil _ _)
-
 theorem XInvX.diskX {g : Geom} {l : Log} {D : Image} {F : Nat} {J : List JE} {init : List Bytes}
-    {t : Bytes} {x : Bool} {afs lead : List TFrm} {gs : List Grp} (h : XInvX g l D F J init t x afs lead gs) :
+    {t : Bytes} {x : Bool} {res : Bytes} {ais lead : List AItm} {gs : List Grp}
+    (h : XInvX g l D F J init t x res ais lead gs) :
     DiskX g D F J := by
-  obtain ⟨cs, x', hne, hfull, ⟨z, hflat⟩, hX, hlast⟩ := rtape_of_tapeX h.tape
-  refine ⟨cs, x', afs, hne, hfull, ⟨(init.flatten ++ t).length - endPos g 0 (untag afs) + z, ?_⟩, hX, ?_,
-    h.lay.fits, h.lay.tagged, h.segs⟩
+  obtain ⟨cs, x', hn, _, hfull, ⟨z, hflat⟩, hX, hlast⟩ := rtapeR_of_tapeR h.tape
+  have hne : cs ≠ [] := by intro e; rw [e] at hn; simp at hn
+  have hE : endPos g 0 (frs ais) ≤ (init.flatten ++ t).length := by
+    rcases h.lay.len with h1 | h1
+    · omega
+    · have := le_hdrPos g (endPos g 0 (frs ais)); omega
+  refine ⟨cs, x', ais, res, (init.flatten ++ t).length - endPos g 0 (frs ais), hne, hfull, ⟨z, ?_⟩,
+    by rw [hX, hn], ?_, h.lay.fits, h.lay.tagged, by rw [hn]; exact h.lay.jok, ?_, h.segs⟩
   · rw [hflat]
     conv => lhs; rw [h.lay.bytes]
-    rw [List.append_assoc, ← zeros_add]
-  · refine Nat.le_trans hlast ?_
+  · rw [hn, Nat.add_sub_cancel]
+    refine Nat.le_trans hlast ?_
     rcases h.lay.len with h1 | h1
     · rw [h1]; exact le_hdrPos g _
     · rw [h1]; exact Nat.le_refl _
+  · rw [hn]
+    have : endPos g 0 (frs ais) + ((init.flatten ++ t).length - endPos g 0 (frs ais)) = (init.flatten ++ t).length := by
+      omega
+    rw [this]; exact h.resok
 
-/-- the GC touches, with explicit witnesses and crash states -/
-theorem touches_extX (g : Geom) (F : Nat) (lead : List TFrm) (names : List Bytes) :
-    ∀ (l : Log) (D : Image) (J : List JE) (init : List Bytes) (t : Bytes) (x : Bool) (afs : List TFrm)
-      (gs : List Grp),
-    XInvX g l D F J init t x afs lead gs →
-    ∃ init' t' x' ntf newgs B,
-      XInvX g (writeTouches g l names).1 (applyOsOps D (directOps (writeTouches g l names).2.1)) F
-        (J ++ touchesJ g l names) init' t' x' (afs ++ ntf) lead (gs ++ newgs) ∧
-      (names ≠ [] → ntf ≠ [] ∧ (init'.flatten ++ t').length = endPos g 0 (untag (afs ++ ntf))) ∧
-      (names = [] → ntf = [] ∧ newgs = [] ∧ B = []) ∧
-      init'.flatten ++ t' = init.flatten ++ t ++ B ∧
-      (∀ (w : Bool) X, CutW w D (writeTouches g l names).2.1 X →
-        ∃ Pm, RTape g F Pm X ∧ PrefixCut (init.flatten ++ t) (init'.flatten ++ t') Pm ∧
-          (w = true → ∃ i, i ≤ names.length ∧ DiskX g X F (J ++ (touchesJ g l names).take i))) ∧
-      (∀ a ∈ ntf, ∃ f off, Effect.write f off (encodeFrame a.2.1 a.2.2) ∈ (writeTouches g l names).2.1) := by
-  induction names with
-  | nil =>
-    intro l D J init t x afs gs h
-    refine ⟨init, t, x, [], [], [], ?_, fun h => absurd rfl h, fun _ => ⟨rfl, rfl, rfl⟩, by simp, ?_, ?_⟩
-    · simpa [writeTouches, touchesJ, directOps, applyOsOps] using h
-    · intro w X hX
-      have : X = D := by simpa [writeTouches] using hX.nil_inv
-      rw [this]
-      exact ⟨_, rtape_of_tapeX h.tape, ⟨_, Nat.le_refl _, Nat.le_refl _, (List.take_length).symm⟩,
-        fun _ => ⟨0, Nat.le_refl _, by simpa using h.diskX⟩⟩
-    · intro a ha; cases ha
-  | cons n ns ih =>
-    intro l D J init t x afs gs h
-    have he : Step.touchEntry l n = .touch n (touchNext l n) := rfl
-    obtain ⟨i1, t1, x1, ntf1, B1, y1, hne1, hlen1, hP1, hcut1, hmem1⟩ := entry_extX g h (.touch n (touchNext l n))
-    obtain ⟨i2, t2, x2, ntf2, ns2, B2, y2, hlen2, hnil2, hP2, hcut2, hmem2⟩ := ih _ _ _ _ _ _ _ _ y1
-    refine ⟨i2, t2, x2, ntf1 ++ ntf2, (some (l.je g (.touch n (touchNext l n))), ntf1) :: ns2, B1 ++ B2, ?_,
-      fun _ => ⟨by simp [hne1], ?_⟩, (fun h => by cases h), ?_, ?_, ?_⟩
-    · rw [Step.writeTouches_cons, touchesJ_cons, he]
-      simp only [directOps_append, applyOsOps_append]
-      have : J ++ l.je g (.touch n (touchNext l n)) ::
-          touchesJ g (Log.writeEntry g l (.touch n (touchNext l n))).1 ns =
-          J ++ [l.je g (.touch n (touchNext l n))] ++
-            touchesJ g (Log.writeEntry g l (.touch n (touchNext l n))).1 ns := by simp
-      rw [this, ← List.append_assoc afs, show gs ++ (some (l.je g (.touch n (touchNext l n))), ntf1) :: ns2 =
-        gs ++ [(some (l.je g (.touch n (touchNext l n))), ntf1)] ++ ns2 by simp]
-      exact y2
-    · by_cases hns : ns = []
-      · obtain ⟨a1, a2, a3⟩ := hnil2 hns
-        subst a1
-        rw [List.append_nil]
-        have : i2.flatten ++ t2 = i1.flatten ++ t1 := by rw [hP2, a3, List.append_nil]
-        rw [this]
-        exact hlen1
-      · rw [← List.append_assoc]; exact (hlen2 hns).2
-    · rw [hP2, hP1]; simp [List.append_assoc]
-    · intro w X hX
-      rw [Step.writeTouches_cons, he] at hX
-      rcases CutW.of_append _ hX with hX | hX
-      · obtain ⟨Pm, c1, c2, c3⟩ := hcut1 w X hX
-        refine ⟨Pm, c1, ?_, ?_⟩
-        · rw [hP2]; exact c2.extend B2
-        · intro hw
-          rcases c3 hw with hd | hd
-          · exact ⟨0, Nat.zero_le _, by simpa using hd⟩
-          · exact ⟨1, by simp, by rw [touchesJ_cons]; simpa using hd⟩
-      · obtain ⟨Pm, c1, c2, c3⟩ := hcut2 w X hX
-        refine ⟨Pm, c1, ?_, ?_⟩
-        · rw [hP1] at c2; exact c2.shift
-        · intro hw
-          obtain ⟨i, hi, hd⟩ := c3 hw
-          refine ⟨i + 1, by simpa using hi, ?_⟩
-          rw [touchesJ_cons, List.take_succ_cons]
-          simpa [List.append_assoc] using hd
-    · intro a ha
-      rw [Step.writeTouches_cons, he]
-      rcases List.mem_append.mp ha with ha | ha
-      · obtain ⟨f, off, hm⟩ := hmem1 a ha
-        exact ⟨f, off, List.mem_append_left _ hm⟩
-      · obtain ⟨f, off, hm⟩ := hmem2 a ha
-        exact ⟨f, off, List.mem_append_right _ hm⟩
+/-- appending frames as written -/
+theorem flay_appendJ (g : Geom) (F L L' : Nat) (P : Bytes) (ais : List AItm) (h : FLayJ g F L P ais) (hL : L ≤ L')
+    (fs : List Frm) (hne : fs ≠ []) (hf : Fits g (P.length % g.B) fs) :
+    FLayJ g F L' (P ++ (layoutBufs g (P.length % g.B) fs).flatten)
+      (ais ++ plain (tagFrom g F (endPos g 0 (frs ais)) fs)) ∧
+    (P ++ (layoutBufs g (P.length % g.B) fs).flatten).length = endPos g 0 (frs ais ++ fs) := by
+  have hE := flatJ0_len g ais h.jok.rawLen h.fits
+  have hbytes : (layoutBufs g (endPos g 0 (frs ais) % g.B) fs).flatten =
+      zeros (P.length - endPos g 0 (frs ais)) ++ (layoutBufs g (P.length % g.B) fs).flatten := by
+    rcases h.len with h1 | h1
+    · rw [h1]; simp [zeros]
+    · rw [h1]; exact layout_hdrPos g _ fs hne
+  have hfits : Fits g (endPos g 0 (frs ais) % g.B) fs := by
+    rcases h.len with h1 | h1
+    · rw [← h1]; exact hf
+    · rw [h1] at hf; exact Fits_hdrPos g _ fs hne hf
+  have hend : endPos g P.length fs = endPos g (endPos g 0 (frs ais)) fs := by
+    rcases h.len with h1 | h1
+    · rw [h1]
+    · rw [h1, endPos_hdrPos g _ fs hne]
+  have hlen : (P ++ (layoutBufs g (P.length % g.B) fs).flatten).length = endPos g 0 (frs ais ++ fs) := by
+    rw [List.length_append, ← totalLen_eq, totalLen_layout_pos g fs _ hf, hend, endPos_append]
+  have hcur : endCursor g 0 (frs ais) = endPos g 0 (frs ais) % g.B := endCursor_frs g ais h.fits
+  have hfrs : frs (ais ++ plain (tagFrom g F (endPos g 0 (frs ais)) fs)) = frs ais ++ fs := by
+    rw [frs_append, frs_plain, untag_tagFrom]
+  refine ⟨⟨?_, ?_, ?_, ?_, ?_⟩, hlen⟩
+  · rw [hfrs, hlen, Nat.sub_self]
+    simp only [zeros, List.replicate_zero, List.append_nil]
+    rw [flatJ_append, hcur, flatJ_plain, untag_tagFrom, hbytes, ← List.append_assoc, ← h.bytes]
+  · rw [hfrs, Fits_append, hcur]; exact ⟨h.fits, hfits⟩
+  · rw [tfs_append, tfs_plain, Tagged_append]; exact ⟨h.tagged, Tagged_tagFrom g F fs _⟩
+  · left; rw [hlen, hfrs]
+  · rw [JOK_append]; exact ⟨h.jok.mono hL, JOK_plain g L' _ _⟩
 
 end MRL.L
